@@ -8,6 +8,8 @@ HERE = os.path.dirname(os.path.dirname(os.path.abspath(__file__)))
 
 ALL = ['C%02d' % i for i in range(1, 21)]
 
+CSS_NOTE = ('Bounds: every token forest with <= 3 (thorough 4) tokens per level, any nesting depth by assume-guarantee per routine (a nested block is an event naming a routine that is analysed separately; a frame analysis establishes which transformer fields a routine may leave changed and havocs them in callers). Trusted: the cssparser::Parser contract of mirsym/sc_env.py (token forest, try_parse rollback, parse_nested_block precondition, positions as uninterpreted functions), cssparser tokenizer/serializer, format!/urlencoding as opaque functions; the reference rewrite lib/cssref.py is used only to replay counterexamples.')
+
 CHECKS = {
     'C01': dict(
         engine='M',
@@ -38,6 +40,56 @@ CHECKS = {
              'Bound: id < 2^24, loop unwinding 8 with unwinding assertion.  Counterexamples are replayed through the real function.',
         technique='symbolic execution of MIR + SMT (z3 Int encoding), counterexample replay on the native build',
         design='§4 C02 (M02a)',
+    ),
+    'C08': dict(
+        engine='M', category='other',
+        text='Routine-level bounded check of token conservation and meaningful whitespace: the MIR of convert_class_names_and_rpx_in_block, '
+             'convert_rpx_in_block, parse_qualified_rule and parse_at_rule (with closures and the helper methods they call) is executed against a symbolic '
+             'token forest; every path yields trace obligations - each non-whitespace token causes exactly one output unit in order, blocks are '
+             'open/recurse/close with the matching closer, descendant whitespace is re-emitted exactly when the previous token was whitespace, calc() keeps '
+             'the spaces around + and -, every block is dispatched to the routine of its context (selector / value / rule list) - decided by z3 for all forests '
+             'within the bound.  Tokenizer/serializer behaviour (separators, spelling-sensitive values) is outside.',
+        note=CSS_NOTE, technique='symbolic execution of MIR against an environment contract (open environment) + SMT trace predicates, replay through from_css',
+        design='§4 C08',
+    ),
+    'C09': dict(
+        engine='M', category='other',
+        text='Routine-level bounded check of class prefixing: in selector context write_maybe_class_name is called for every Ident with in_class == '
+             '"previous token is the . delimiter" (decided for all forests within the bound), never from the value routine; its effect (MIR of '
+             'write_maybe_class_name, all option combinations symbolic) is exactly "<prefix>--<name>" once, with the sign comment exactly at class '
+             'positions, and unchanged otherwise; every nested selector block and every rule-bearing at-rule block is dispatched to a class-aware routine.',
+        note=CSS_NOTE, technique='symbolic execution of MIR against an environment contract (open environment) + SMT trace predicates, replay through from_css',
+        design='§4 C09',
+    ),
+    'C17': dict(
+        engine='M', category='other',
+        text='Routine-level bounded check of :host conversion: on every path of parse_qualified_rule (convert_host, class_prefix, host_is and a two-entry '
+             'at-rule stack symbolic) the low-priority output is written only for exactly ":host {", event by event ([wx-host="prefix"], optional ,[is="..."], '
+             'the wrappers of the at-rule stack in order and closed as often, the block processed while using_low_priority is set), combinations give '
+             'exactly one warning and no output, everything else goes through the ordinary selector path; parse_at_rule pushes exactly the prelude segment '
+             'while its block is processed and restores the stack on every path.',
+        note=CSS_NOTE, technique='symbolic execution of MIR against an environment contract (open environment) + SMT trace predicates, replay through from_css',
+        design='§4 C17',
+    ),
+    'C18': dict(
+        engine='M', category='other',
+        text='Routine-level bounded check of the @import placeholder: on every path of parse_at_rule with an import sign exactly one comment '
+             '"<sign> <urlencoding::encode(path of the string token)>" is emitted after one wrapper per layer()/supports() function and one @media wrapper '
+             'iff media tokens exist, closed in reverse order; IllegalImportPosition iff not at file start; without a sign @import takes the generic path. '
+             'Percent-encoding itself (urlencoding crate) is an uninterpreted function; counterexamples are instantiated with critical paths at replay.',
+        note=CSS_NOTE, technique='symbolic execution of MIR against an environment contract (open environment) + SMT trace predicates, replay through from_css',
+        design='§4 C18',
+    ),
+    'C19': dict(
+        engine='M', category='other',
+        text='Bounded check of source-map provenance and column accounting: (1) in every routine the StepToken handed to an output carries the position '
+             'of the input token that caused it (copy: its own, synthesized whitespace: the token it precedes, closer: its opener, rewritten class/rpx: the '
+             'original token plus its spelling as name) for all forests within the bound; (2) one inductive step of StyleSheetOutput::append_token / '
+             'append_token_space_preserved / append_raw from an arbitrary output state with utf16_len == UTF-16 length of the text: the entry column is that '
+             'length after the separator and before the token, line 0, source fields passed through, invariant preserved (so entries are ordered).',
+        note=CSS_NOTE + ' Column step: output string abstracted to (utf8, utf16) lengths; to_css appends an arbitrary token text.',
+        technique='symbolic execution of MIR (open environment + one inductive step over an abstract output state) + SMT',
+        design='§4 C19',
     ),
     'C10': dict(
         engine='M',
